@@ -59,6 +59,10 @@ class Ctx:
             d = Dom(entry, cut, efilter)
             # reaching definitions of the same graph: lets guard facts see through local names (named conditions, reason variables)
             d.rd_factory = lambda g=g: self._rd_of_graph(g)
+            host = getattr(g, 'func', None)
+            if host is not None and host.cls is not None:
+                from .rules.common import predicate_method_body
+                d.pred_resolver = lambda call, host=host: predicate_method_body(host, call)
             self._dom[k] = d
         return self._dom[k]
 
